@@ -11,6 +11,13 @@ for d in sorted(glob.glob('/verif/seeded/C*-*'), key=lambda x: (x.split('/')[-1]
     own = [r for r in own_all if r.get('run', 0) == last]
     earlier_missed = any(r['verdict'] == 'not-detected' for r in own_all if r.get('run', 0) != last)
     verdicts = ', '.join(f"seed {r['seed']}: {r['verdict']}" for r in own) or '-'
+    if not own and os.path.exists(d + '/slot_result.json'):
+        # not (yet) run against /repo itself: the latest run in a scratch worktree (tools/seeded_slot.py), marked as such
+        sl = [r for r in json.load(open(d + '/slot_result.json')) if r['property'] == meta['property'] and r.get('tier', 'quick') == 'quick']
+        if sl:
+            own = [sl[-1]]
+            earlier_missed = any(r['verdict'] != 'DETECTED' for r in sl[:-1])
+            verdicts = f"seed {sl[-1]['seed']}: {sl[-1]['verdict']} (scratch worktree)"
     if earlier_missed:
         verdicts += ' (missed before the checks were strengthened)'
     sig = next((r['signatures'][0] for r in own if r['signatures']), '')
